@@ -75,6 +75,22 @@ func (ex *Exec) evalSpec(sc *Scope, e ast.Expr) Val {
 	case *ast.Ident:
 		return ex.specIdent(sc, e.Name)
 	case *ast.SelectorExpr:
+		// package-qualified variable or constant: prebuild.ABI
+		if id, ok := e.X.(*ast.Ident); ok && sc.Pkg != nil {
+			if _, isVar := sc.Vars[id.Name]; !isVar {
+				if _, isBound := sc.Bound[id.Name]; !isBound {
+					for _, imp := range sc.Pkg.Pkg.Imports() {
+						if imp.Name() == id.Name {
+							if ip := ex.Prog.SSA.Package(imp); ip != nil {
+								n := *sc
+								n.Pkg = ip
+								return ex.specIdent(&n, e.Sel.Name)
+							}
+						}
+					}
+				}
+			}
+		}
 		x := ex.evalSpec(sc, e.X)
 		return ex.specField(sc, x, e.Sel.Name)
 	case *ast.StarExpr:
@@ -457,6 +473,17 @@ func (ex *Exec) specCall(sc *Scope, e *ast.CallExpr) Val {
 			specErr(e, "last of %T", arg(0))
 		}
 		return wrapTerm(sl.Elem, smt.Sel(sl.Arr, smt.Sub(sl.Len, "1")))
+	case "sprintf":
+		format, _ := strconv.Unquote(e.Args[0].(*ast.BasicLit).Value)
+		var vals []Val
+		for i := 1; i < len(e.Args); i++ {
+			vals = append(vals, arg(i))
+		}
+		r, ok := ex.Sprintf(format, vals)
+		if !ok {
+			specErr(e, "sprintf: arguments cannot be flattened")
+		}
+		return r
 	case "ext":
 		name, _ := strconv.Unquote(e.Args[0].(*ast.BasicLit).Value)
 		var terms, sorts []string
@@ -466,6 +493,9 @@ func (ex *Exec) specCall(sc *Scope, e *ast.CallExpr) Val {
 		}
 		ret := "Str"
 		switch name {
+		case "regexp.MustCompile":
+			f := ex.Ctx.Declare(fmt.Sprintf("ext_%s_0", name), sorts, "Ref")
+			return Ptr{Ref: smt.App(f, terms...)}
 		case "strings.Contains", "strings.HasPrefix", "strings.HasSuffix":
 			ret = "Bool"
 		case "strings.Split", "strings.Fields":
@@ -561,7 +591,7 @@ func (ex *Exec) specCall(sc *Scope, e *ast.CallExpr) Val {
 		if sel, ok := e.Fun.(*ast.SelectorExpr); ok {
 			if id, ok := sel.X.(*ast.Ident); ok {
 				if tn, ok := sc.Pkg.Pkg.Scope().Lookup(id.Name).(*types.TypeName); ok {
-					if m := ex.Prog.SSA.LookupMethod(tn.Type(), sc.Pkg.Pkg, sel.Sel.Name); m != nil {
+					if m := ex.lookupMethod(tn.Type(), sc.Pkg.Pkg, sel.Sel.Name); m != nil {
 						var args []Val
 						for i := range e.Args {
 							args = append(args, arg(i))
@@ -764,4 +794,15 @@ func (ex *Exec) loadSpecAxioms(sc *Scope) {
 		b := ex.evalSpec(asc, ax.Clause.Expr).(Bool).T
 		ex.Ctx.AddAxiom(smt.Imp(smt.And(tmp.PC...), b))
 	}
+}
+
+// lookupMethod finds T.name or (*T).name without panicking.
+func (ex *Exec) lookupMethod(t types.Type, pkg *types.Package, name string) *ssa.Function {
+	for _, recv := range []types.Type{t, types.NewPointer(t)} {
+		ms := ex.Prog.SSA.MethodSets.MethodSet(recv)
+		if sel := ms.Lookup(pkg, name); sel != nil {
+			return ex.Prog.SSA.MethodValue(sel)
+		}
+	}
+	return nil
 }
